@@ -34,7 +34,8 @@ RULE = ('real directory trees under a per-case temporary directory (depth<=4, '
         ' Rounds 9-13 added: roots in non-normal spellings (x/.., //, /./,'
         ' relative, the working directory itself), a rule directory outside'
         ' the root, a factory that re-enters the populator, names repeating'
-        ' the text of an extension.')
+        ' the text of an extension.'
+        ' Round 14 added: the root reached through a symbolic link.')
 ANCHORS = [
     'desper/model/__init__.py::DirectoryResourcePopulator.__call__',
     'desper/model/__init__.py::DirectoryResourcePopulator.add_rule',
